@@ -93,7 +93,7 @@ class Outcome:
         self.samples = []
 
 
-def run_cases(sc, wire, cases, name='b', runtime=True, check=False, build=True, switches=(True, True, True),
+def run_cases(sc, wire, cases, name='b', runtime=True, check=False, show=False, build=True, switches=(True, True, True),
               allow_typeerr=(), gate=True, gen_args=(), tool_timeout=300):
     """Full pipeline on a list of cases. Returns Outcome (violations NOT yet confirmed)."""
     out = Outcome()
@@ -120,6 +120,10 @@ def run_cases(sc, wire, cases, name='b', runtime=True, check=False, build=True, 
         tc = core.ToolRun(b, wire, 'check', timeout=tool_timeout)
         cobs = tc.run_all()
         allobs += [cobs[d] for d in dirs]
+    if show:
+        ts = core.ToolRun(b, wire, 'show', timeout=tool_timeout)
+        sobs = ts.run_all()
+        allobs += [sobs[d] for d in dirs]
     badidx, n = judge_static(sc, cases_path, allobs, name=name + '-judge')
     out.n_obs = n
     for i in sorted(badidx):
